@@ -830,6 +830,12 @@ func headerMenu() []Case {
 	for _, h := range hs {
 		out = append(out, streamCase("header menu: "+h.desc, []byte(h.head+h.body)))
 		out = append(out, streamCase("header menu: "+h.desc+" + valid frame", cat([]byte(h.head+h.body), next)))
+		// the same header block as a LATER frame of one reader: after a valid frame whose body has the same length
+		// (whatever the reader remembers from the first frame would fit the second), after one of another length,
+		// and between two valid frames
+		out = append(out, streamCase("valid frame of the same length + header menu: "+h.desc, cat(frame(bodyCall), []byte(h.head+h.body))))
+		out = append(out, streamCase("valid frame of another length + header menu: "+h.desc, cat(next, []byte(h.head+h.body))))
+		out = append(out, streamCase("valid frame + header menu: "+h.desc+" + valid frame", cat(frame(bodyCall), []byte(h.head+h.body), next)))
 	}
 	// (d) a valid frame followed by a sentinel
 	for _, s := range []string{"X", "\r\n", "\n", "{", "\xde\xad\xbe\xef", "Content-Length: 1\r\n\r\n", "Content-Length: 1\r\n\r\n{", string(frame(bodyErr)), string(frame(bodyErr)) + "\x00"} {
